@@ -52,6 +52,10 @@ CHECKS = {
   "text": "Seeded search over thread-owning executors (retry, poll, throttle, timeout, thread pool, the shared f_timeout executor; map and cancel-on-shutdown as thread-less controls) x histories of completed / failed / cancelled-in-flight / cancelled-while-queued futures x trigger (shutdown, dropping the last reference with futures dropped / kept / still pending, interpreter-exit hook) at a drawn moment relative to the worker loop x schedules with line-level pre-emption. Oracles: after futures are done and dropped, an explicit gc.collect() leaves no future, callable, argument or result alive (weak references only in the harness) and the executor still serves; every worker thread is gone within 60 virtual seconds of the trigger; futures pending when the executor is dropped still complete with the right outcome.",
   "note": "gc is disabled during a run and invoked at scheduled points (deterministic weakref callbacks); other threads are given a virtual second to finish the iteration they are in before retention is judged; a failed future kept by the user may pin frames through its traceback (Python semantics) and is excluded from the kept-futures variant.",
   "design": "10 (C12)"},
+ "C18": {
+  "text": "Seeded search over stacks (depth 1-4) x fault plans over every user-code call site (callable, map / error / flat-map function, poll function at call k, cancel function, should_retry / sleep_time at attempt k, throttle count callable at call k, done-callback) x concurrent cancels (also placed around the policy evaluation by semantic triggers) x schedules; plus a directed family hammering a RetryExecutor whose policy retries results. Oracles: no library-created thread ends with an exception, nothing but scripted outcomes escapes from cancel / add_done_callback / result / submit, untargeted futures still match the sequential reference, and a fault-free probe submission is served afterwards within its model bound.",
+  "note": "Runs in which the poll function raised are exempt from the outcome comparison (the set of futures it was shown is schedule-dependent; C08 judges it).",
+  "design": "10 (C18)"},
 }
 def main():
     checks = []
